@@ -21,6 +21,7 @@ func init() {
 		},
 		Run: runC24,
 		Controls: []Control{
+			{Name: "idle-fsms-dropped-when-a-connection-comes-in", File: "protocols/bgp/server/server.go", Old: "\t\tpeer.fsms = append(peer.fsms, fsm)\n", New: "\t\tkeep := make([]*FSM, 0, len(peer.fsms)+1)\n\t\tfor _, f := range peer.fsms {\n\t\t\tif f.con != nil {\n\t\t\t\tkeep = append(keep, f)\n\t\t\t}\n\t\t}\n\t\tpeer.fsms = append(keep, fsm)\n", Expect: "only-ended-fsms-leave-the-list"},
 			{Name: "remove-truncates-at-the-match", File: "protocols/bgp/server/peer.go", Old: "\tfsms := make([]*FSM, 0, len(p.fsms))\n\tfor _, f := range p.fsms {\n\t\tif f != fsm {\n\t\t\tfsms = append(fsms, f)\n\t\t}\n\t}\n\n\tp.fsms = fsms\n", New: "\tfor i := range p.fsms {\n\t\tif p.fsms[i] != fsm {\n\t\t\tcontinue\n\t\t}\n\t\tcopy(p.fsms[i:], p.fsms[i+1:])\n\t\tp.fsms = p.fsms[:i]\n\t\treturn\n\t}\n", Expect: "ended-fsm-alone-leaves-the-list"},
 			{Name: "refactor-remove-cuts-in-place", Silent: true, File: "protocols/bgp/server/peer.go", Old: "\tfsms := make([]*FSM, 0, len(p.fsms))\n\tfor _, f := range p.fsms {\n\t\tif f != fsm {\n\t\t\tfsms = append(fsms, f)\n\t\t}\n\t}\n\n\tp.fsms = fsms\n", New: "\tfor i := range p.fsms {\n\t\tif p.fsms[i] != fsm {\n\t\t\tcontinue\n\t\t}\n\t\tcopy(p.fsms[i:], p.fsms[i+1:])\n\t\tp.fsms = p.fsms[:len(p.fsms)-1]\n\t\treturn\n\t}\n"},
 			{Name: "collision-check-stops-at-first-non-openconfirm", File: "protocols/bgp/server/peer.go", Old: "\t\tif !isOpenConfirm {\n\t\t\tcontinue\n\t\t}\n", New: "\t\tif !isOpenConfirm {\n\t\t\treturn false\n\t\t}\n", Expect: "collision-path"},
@@ -419,6 +420,47 @@ func runC24(c *core.Ctx) {
 	// (3f) taking the ended FSM off the list removes that FSM only: the other connection of the collision stays known to
 	// the peer (it is the one that survives)
 	removeExactlyOne(c, "ended-fsm-alone-leaves-the-list", c.MustFunc(srv+".(*peer).removeFSM"), p.Field(srv, "peer", "fsms"), "removes only the FSM given")
+
+	// (3g) nothing but an ended FSM ever leaves the list: every store to peer.fsms outside removeFSM / the constructors is
+	// `append(<the list itself>, new)`
+	{
+		fsmsF := p.Field(srv, "peer", "fsms")
+		nSt := 0
+		for _, g := range p.FuncsIn(srv) {
+			if g.Decl.Body == nil || isTestFn(p, g) || g.Decl.Name.Name == "removeFSM" {
+				continue
+			}
+			ast.Inspect(g.Decl.Body, func(nd ast.Node) bool {
+				as, ok := nd.(*ast.AssignStmt)
+				if !ok || len(as.Lhs) != len(as.Rhs) {
+					return true
+				}
+				for i, l := range as.Lhs {
+					if core.FieldOf(g.Pkg, l) != fsmsF || fsmsF == nil {
+						continue
+					}
+					nSt++
+					okApp := false
+					switch r := core.Unparen(as.Rhs[i]).(type) {
+					case *ast.CallExpr:
+						if id, isId := r.Fun.(*ast.Ident); isId && id.Name == "append" && len(r.Args) >= 1 && core.SameExpr(g.Pkg, core.Unparen(r.Args[0]), core.Unparen(l)) {
+							okApp = true
+						}
+						if id, isId := r.Fun.(*ast.Ident); isId && id.Name == "make" {
+							okApp = true // a new peer's empty list
+						}
+					case *ast.CompositeLit:
+						okApp = true // a freshly built peer (BMP pseudo session)
+					}
+					c.Analysed(g)
+					c.Check(okApp, "only-ended-fsms-leave-the-list", fmt.Sprintf("%s store #%d of peer.fsms", g.Name(), nSt), as.Pos(),
+						"peer.fsms is replaced by something other than `append(peer.fsms, …)` outside removeFSM: a running FSM (one that fell back to Idle and will reconnect) can drop out of the list, and the collision check for a later connection no longer sees the session it establishes — two Established sessions to one peer")
+				}
+				return true
+			})
+		}
+		c.Check(nSt >= 1, "only-ended-fsms-leave-the-list", "stores of peer.fsms found", 0, "no store of peer.fsms outside removeFSM found (incomingConnectionWorker appends the FSM of an incoming connection)")
+	}
 
 	// (4) cease sends NOTIFICATION(Cease) before Close
 	ceaseC := p.Object("protocols/bgp/packet", "Cease")
